@@ -37,6 +37,11 @@ def main() -> None:
             scfg = rb.build(inp, pids)
             st0 = project(scfg)
             events.append(json.dumps(["built", ordered(st0["H"]), ordered(st0["ord"]), ordered(st0["ng"])]))
+            if inp["dom"] == "S":
+                import ast as _ast
+
+                # the graph built from source also means the CONTENT of its blocks: statement texts, in block order
+                events.append(json.dumps(["built-text", [[str(n), [_ast.unparse(x) for x in b.tree]] for n, b in scfg.graph.items()]]))
             if rb.named_closed(st0["H"]):
                 beh = record_restructure(scfg, inp, None, primitives=True, names=True)
                 for ev in beh["events"]:
